@@ -92,6 +92,9 @@ def run_job(job):
                 inputs = eng.concretize(c["pc"], c["neg"], c["cf_apps"], block=tried)
                 if inputs is None:
                     break
+                if not eng.last_concretize_refined:
+                    tried.append(inputs)
+                    continue
                 out, labels, _ = _concrete_run(hm, job, inputs, job.get("known_active", ()))
                 if labels:
                     res["violations"].append(dict(label=c["label"], observed=labels, inputs=inputs, outcome=str(out)))
@@ -105,8 +108,8 @@ def run_job(job):
         # ---- differential validation of explored paths: symbolic outcome == real-stack outcome
         for p in eng.path_log:
             inputs = eng.concretize(p["pc"], None, p["cf_apps"], pretty=bool(getattr(hm, "PRETTY_SAMPLES", False)))
-            if inputs is None:
-                continue
+            if inputs is None or not eng.last_concretize_refined:
+                continue    # no witness, or one that relies on an unrealistic interpretation of casefold
             out, labels, _ = _concrete_run(hm, job, inputs, job.get("known_active", ()))
             res["diffs"] += 1
             sample = dict(job=job["name"], inputs=inputs, outcome=str(p["outcome"]))
